@@ -28,8 +28,13 @@ inductive Err where
   | gradeTable
   /-- `Time::create` rejected a non-positive speed or distance -/
   | timeCreate
-  /-- `update_from_query`: `BuildError` (missing / non-numeric / out-of-range starting charge) -/
+  /-- `update_from_query`: `BuildError` (missing / non-numeric / out-of-range starting charge); also
+  the build errors of the configuration layer (speed table, unknown `model_name`) -/
   | build
+  /-- `estimate_traversal`: the haversine code rejected a coordinate -/
+  | haversine
+  /-- `get_headings`: edge id not in the headings table -/
+  | headingTable
   deriving DecidableEq, Repr, Inhabited
 
 def Err.name : Err → String
@@ -37,6 +42,8 @@ def Err.name : Err → String
   | .gradeTable => "grade_table"
   | .timeCreate => "time_create"
   | .build => "build"
+  | .haversine => "haversine"
+  | .headingTable => "heading_table"
 
 /-! ## Minimal state layer
 
@@ -147,6 +154,24 @@ def SpeedEngine.estimate [LT α] [DecidableLT α] (e : SpeedEngine α) (maxSpeed
     | some t =>
       let s1 := addTime fu s t e.timeUnit
       .ok (addDistance fu s1 distance e.distanceUnit)
+
+/-- reading the speed table file: `Speed::from_str` rejects a negative value, which fails the build -/
+def loadSpeedTable [LT α] [DecidableLT α] (rows : List α) : Except Err (List α) :=
+  if rows.any (fun x => decide (x < (zero : α))) then .error .build else .ok rows
+
+/-- `SpeedLookupBuilder::build` / `SpeedTraversalEngine::new`: the table is read, the maximum speed
+found, and absent `distance_unit` / `time_unit` default to the base units.  Returns the engine and
+its `max_speed`. -/
+def SpeedEngine.ofConfig [LT α] [DecidableLT α] (rows : List α) (su : SpeedUnit)
+    (du : Option DistanceUnit) (tu : Option TimeUnit) : Except Err (SpeedEngine α × α) :=
+  match loadSpeedTable rows with
+  | .error e => .error e
+  | .ok tbl =>
+    match getMaxSpeed tbl with
+    | .error e => .error e
+    | .ok m =>
+      .ok ({ speedTable := tbl, speedUnit := su, distanceUnit := du.getD baseDistanceUnit,
+             timeUnit := tu.getD baseTimeUnit }, m)
 
 end TimeModel
 
@@ -400,6 +425,57 @@ def Vehicle.bestCaseEnergyState (v : Vehicle α) (fu : FeatureUnits) (distance :
     let s1 := addElectric fu s e b.unit
     updateSocPercent s1 e b.capacity
 
+/-- `f64::MAX` -/
+def f64Max : α := Lit.lit (2 ^ 1024 - 2 ^ 971) 1
+
+/-- `prediction_model_ops::find_min_energy_rate`: the smallest of the swept predictions (the sweep —
+20..79 mph at zero grade — is evaluated by the prediction model; its results are the input here) -/
+def findMinEnergyRate (sweep : List α) : α :=
+  sweep.foldl (fun m r => if r < m then r else m) f64Max
+
+/-- `get_model_record_from_params` + `load_prediction_model`: a configured `ideal_energy_rate` is
+taken as is, otherwise the swept minimum; a missing `real_world_energy_adjustment` is 1 -/
+def PredRecord.ofConfig (rate : α → α → α) (su : SpeedUnit) (gu : GradeUnit) (ru : EnergyRateUnit)
+    (ideal : Option α) (sweep : List α) (adj : Option α) : PredRecord α :=
+  { rate := rate, speedUnit := su, gradeUnit := gu, rateUnit := ru,
+    idealRate := match ideal with | some x => x | none => findMinEnergyRate sweep,
+    adjustment := match adj with | some a => a | none => one }
+
+/-- `build_battery_electric` / `build_plugin_hybrid`: the vehicle starts full
+(`starting_battery_energy = battery_capacity`), capacity and unit as configured -/
+def Battery.ofConfig (capacity : α) (unit : EnergyUnit) : Battery α :=
+  { capacity := capacity, startEnergy := capacity, unit := unit }
+
+/-- a configuration the builders cannot read — unknown vehicle or time-model type, a missing required
+entry (battery capacity, a PHEV's charge-depleting section, the grade unit, the vehicle list, …), a
+file that does not exist or does not parse, an invalid cache policy — does not build
+(`TraversalModelError::BuildError`); which entry is wrong does not matter -/
+def configReadable (malformed : Bool) : Except Err Unit :=
+  if malformed then .error .build else .ok ()
+
+/-- the `model_name` entry of the query -/
+inductive NameQuery where
+  | absent
+  | nonString
+  | name (id : Nat)
+
+/-- the vehicle library is a `HashMap` filled in configuration order by `insert(vehicle.name(), …)`:
+a later vehicle of the same name replaces an earlier one -/
+def libraryGet {β : Type} (lib : List (Nat × β)) (id : Nat) : Option β :=
+  lib.foldl (fun acc p => if p.1 = id then some p.2 else acc) none
+
+/-- `EnergyModelService::build(query)` = `EnergyTraversalModel::new`: the vehicle named by the
+query's `model_name` (a `BuildError` when the key is missing, not a string, or names no vehicle of
+the library), then `update_from_query` -/
+def selectVehicle (lib : List (Nat × Vehicle α)) (n : NameQuery) (q : SocQuery α) : Except Err (Vehicle α) :=
+  match n with
+  | .absent => .error .build
+  | .nonString => .error .build
+  | .name id =>
+    match libraryGet lib id with
+    | none => .error .build
+    | some v => v.updateFromQuery q
+
 end Vehicles
 
 /-! ## `EnergyTraversalModel` -/
@@ -458,6 +534,28 @@ def estimateTraversal (svc : Service α) (eng : SpeedEngine α) (maxSpeed : α) 
     match eng.estimate maxSpeed fu hm s with
     | .error e => .error e
     | .ok s1 => .ok (v.bestCaseEnergyState fu distance svc.distanceUnit s1)
+
+/-- `EnergyModelBuilder::build` / `EnergyModelService::new`: the speed unit is the time model's
+`speed_unit` entry, an absent `distance_unit` defaults to the base unit, an absent grade table file
+means no table -/
+def Service.ofConfig (timeModelSpeedUnit : SpeedUnit) (gradeTable : Option (List α)) (gradeUnit : GradeUnit)
+    (distanceUnit : Option DistanceUnit) : Service α :=
+  { timeModelSpeedUnit := timeModelSpeedUnit, gradeTable := gradeTable, gradeUnit := gradeUnit,
+    distanceUnit := distanceUnit.getD baseDistanceUnit }
+
+/-- `estimate_traversal` including the failure of the haversine code (`none`: a coordinate outside
+±180 / ±90 degrees, reported as `TraversalModelFailure`) -/
+def estimateTraversalOpt (svc : Service α) (eng : SpeedEngine α) (maxSpeed : α) (v : Vehicle α)
+    (fu : FeatureUnits) (hm : Option α) (s : VState α) : Except Err (VState α) :=
+  match hm with
+  | none => .error .haversine
+  | some d => estimateTraversal svc eng maxSpeed v fu d s
+
+/-- `energy_model_ops::get_headings`: the row of the headings table, or a failure -/
+def getHeadings {β : Type} (tbl : List β) (id : Nat) : Except Err β :=
+  match tbl[id]? with
+  | none => .error .headingTable
+  | some h => .ok h
 
 /-- a route: `traverse_edge` edge after edge, stopping at the first error -/
 def traverseRoute (svc : Service α) (eng : SpeedEngine α) (v : Vehicle α) (fu : FeatureUnits) :
